@@ -101,6 +101,7 @@ int main(int argc, char **argv) {
 		ref::Bytes data, sched;
 		if (!load_case(pos[0], data, sched)) { fprintf(stderr, "cannot read %s\n", pos[0].c_str()); return 2; }
 		Verdict v = run_case_forked(*p, data, sched, excluded);
+		if (opt.count("edges")) for (auto &e : v.lock_edges) printf("EDGE %s\n", e.c_str());
 		if (v.ok) { printf("REPLAY-PASS property=%s file=%s\n", p->id, pos[0].c_str()); return 0; }
 		printf("REPLAY-FAIL property=%s file=%s signature=%s\n%s\n", p->id, pos[0].c_str(),
 		       v.signature.c_str(), v.msg.c_str());
@@ -121,6 +122,7 @@ int main(int argc, char **argv) {
 	std::set<uint64_t> distinct_nt, distinct_all;
 	std::map<std::string, long> tagc, counters;
 	std::set<std::string> edges;
+	std::map<std::string, std::string> edge_case;
 	std::vector<std::string> samples;
 	long inconclusive = 0;
 	Verdict last_fail;
@@ -167,7 +169,8 @@ int main(int argc, char **argv) {
 		if (v.signature == "wallclock-backstop") { inconclusive++; return; }
 		for (auto &t : v.tags) tagc[t]++;
 		for (auto &kv : v.counters) counters[kv.first] += kv.second;
-		for (auto &e : v.lock_edges) edges.insert(e);
+		for (auto &e : v.lock_edges)
+			if (edges.insert(e).second) edge_case[e] = hex(data) + "|" + hex(sched);     // first case that nested the locks this way
 		distinct_all.insert(v.hash);
 		if (v.nontrivial) {
 			nontriv++;
@@ -215,7 +218,9 @@ int main(int argc, char **argv) {
 		{ bool first = true; for (auto &kv : counters) { f << (first ? "" : ",") << "\"" << json_escape(kv.first) << "\": " << kv.second; first = false; } }
 		f << "},\n \"lock_edges\": [";
 		{ bool first = true; for (auto &e : edges) { f << (first ? "" : ",") << "\"" << json_escape(e) << "\""; first = false; } }
-		f << "],\n \"samples\": [";
+		f << "],\n \"edge_cases\": {";
+		{ bool first = true; for (auto &kv : edge_case) { f << (first ? "" : ",") << "\"" << json_escape(kv.first) << "\": \"" << kv.second << "\""; first = false; } }
+		f << "},\n \"samples\": [";
 		{ bool first = true; for (auto &s : samples) { f << (first ? "" : ",") << "\"" << json_escape(s) << "\""; first = false; } }
 		f << "],\n \"failed\": " << ((!ok && failed) ? "true" : "false") << ",\n";
 		f << " \"rc_ok\": " << (ok ? "true" : "false") << ",\n";
